@@ -281,11 +281,25 @@ theorem gen_extremes_answer (henv : Env leq ord U) (s : St α) (hinv : Inv leq s
   simp only [step, Gen.Lists.posetTops_eq_model leq ord s hc] at h2
   exact ⟨h1, h2⟩
 
+/-- `join(S)` / `meet(S)` (`None` and `[]` both mean "all elements"), whatever order `ord` Python walks the sets in -/
+theorem gen_bound_answer (henv : Env leq ord U) (s : St α) (hinv : Inv leq s) (hU : ∀ a ∈ s.elems, U a)
+    (hc : s.useCache = false) (S : Option (List Nat))
+    (hok : ((S.getD []).all fun i => decide (i < s.elems.length)) = true) :
+    outOf .optNat (Gen.Lists.posetJoin ord ⟨s.elems, leq⟩ S) = answer leq s.elems (.bound .anc (S.getD [])) ∧
+    outOf .optNat (Gen.Lists.posetMeet ord ⟨s.elems, leq⟩ S) = answer leq s.elems (.bound .desc (S.getD [])) := by
+  have h1 := out_step henv s (.bound .anc (S.getD [])) hinv hU hok trivial
+  have h2 := out_step henv s (.bound .desc (S.getD [])) hinv hU hok trivial
+  simp only [step, Gen.Lists.posetJoin_eq_model leq ord s hc henv.ord_perm S] at h1
+  simp only [step, Gen.Lists.posetMeet_eq_model leq ord s hc henv.ord_perm S] at h2
+  exact ⟨h1, h2⟩
+
 end
 
 /-- the generated definitions compute (divisibility order on `[1, 2, 3, 6]`): -/
 example : Gen.Lists.posetChildren id ⟨[1, 2, 3, 6], fun a b => decide (a ∣ b)⟩ 3 = .ok [1, 2]
-    ∧ Gen.Lists.posetTops id ⟨[1, 2, 3, 6], fun a b => decide (a ∣ b)⟩ = .ok [3] := by
-  exact ⟨by rfl, by rfl⟩
+    ∧ Gen.Lists.posetTops id ⟨[1, 2, 3, 6], fun a b => decide (a ∣ b)⟩ = .ok [3]
+    ∧ Gen.Lists.posetMeet id ⟨[1, 2, 3, 6], fun a b => decide (a ∣ b)⟩ (some [1, 2]) = .ok (some 0)
+    ∧ Gen.Lists.posetJoin id ⟨[1, 2, 3], fun a b => decide (a ∣ b)⟩ none = .ok none := by
+  exact ⟨by rfl, by rfl, by rfl, by rfl⟩
 
 end Fca.C09
